@@ -4,11 +4,20 @@ package main
 // observations the seeding agents left about the unchanged tree).
 
 import (
+	"fmt"
+	"go/token"
 	"go/types"
+	"reflect"
 	"strings"
 
 	"golang.org/x/tools/go/ssa"
 )
+
+// extraRules: rule groups added after a property's own run function (registered from init functions, so that
+// adding a rule does not touch the property's file).
+var extraRules = map[string][]func(*Ctx){}
+
+func addRules(prop string, f func(*Ctx)) { extraRules[prop] = append(extraRules[prop], f) }
 
 // fieldAccesses returns the loads and the stores of field f of type T in fn (closures not included).
 func fieldAccesses(fn *ssa.Function, T *types.Named, f string) (loads []ssa.Instruction, stores []ssa.Instruction) {
@@ -263,5 +272,675 @@ func runC18UserHold(c *Ctx) {
 	}
 	if n == 0 {
 		c.Undecided("shutdown hooks of the memory limiter processor", "-", "none found")
+	}
+}
+
+// tooLargeRefusal: fn compares a value that does not depend on the queue's current size with the capacity alone
+// (x > cap in any normal form), returns a non-nil error on the larger side without reaching any of the `before`
+// instructions from there, and evaluates the test before them.
+func tooLargeRefusal(fn *ssa.Function, T *types.Named, sizeF string, before []ssa.Instruction) bool {
+	isCapName := func(nm string) bool {
+		l := strings.ToLower(nm)
+		return l == "cap" || l == "capacity"
+	}
+	isCap := func(v ssa.Value) bool {
+		for x := range backSlice(v) {
+			if fa, ok := x.(*ssa.FieldAddr); ok && isCapName(derefStruct(fa.X.Type()).Field(fa.Field).Name()) {
+				return true
+			}
+			if f, ok := x.(*ssa.Field); ok && isCapName(derefStruct(f.X.Type()).Field(f.Field).Name()) {
+				return true
+			}
+		}
+		return false
+	}
+	dependsOnSize := func(v ssa.Value) bool {
+		for x := range backSlice(v) {
+			if fa, ok := x.(*ssa.FieldAddr); ok && isFieldAccess(fa, T, sizeF) {
+				return true
+			}
+		}
+		return false
+	}
+	found := false
+	allInstrs(fn, func(in ssa.Instruction) {
+		iff, ok := in.(*ssa.If)
+		if !ok {
+			return
+		}
+		bo, ok := iff.Cond.(*ssa.BinOp)
+		if !ok {
+			return
+		}
+		var big ssa.Value
+		side := 0 // successor taken when the request is larger than the capacity
+		switch {
+		case (bo.Op == token.GTR || bo.Op == token.GEQ) && isCap(bo.Y) && !isCap(bo.X):
+			big, side = bo.X, 0
+		case (bo.Op == token.LSS || bo.Op == token.LEQ) && isCap(bo.X) && !isCap(bo.Y):
+			big, side = bo.Y, 0
+		case (bo.Op == token.LEQ || bo.Op == token.LSS) && isCap(bo.Y) && !isCap(bo.X):
+			big, side = bo.X, 1
+		case (bo.Op == token.GEQ || bo.Op == token.GTR) && isCap(bo.X) && !isCap(bo.Y):
+			big, side = bo.Y, 1
+		default:
+			return
+		}
+		if dependsOnSize(big) {
+			return
+		}
+		tgt := iff.Block().Succs[side]
+		reach := reachFrom([]*ssa.BasicBlock{tgt}, nil)
+		for _, w := range before {
+			if reach[w.Block()] {
+				return
+			}
+		}
+		errRet := false
+		for _, r := range returnsOf(fn) {
+			if !reach[r.Block()] {
+				continue
+			}
+			rs := resultsOf(r)
+			if len(rs) > 0 && !isNilConst(rs[len(rs)-1]) {
+				errRet = true
+			}
+		}
+		for _, w := range before {
+			if !canReach(iff, w, nil) {
+				return
+			}
+		}
+		if errRet {
+			found = true
+		}
+	})
+	return found
+}
+
+// ---------- C02.R18–R20: freed space reaches every waiter; the persistent queue refuses what can never fit; its
+// Shutdown releases the producers ----------
+func init() { addRules("C02", runC02Round6) }
+
+func runC02Round6(c *Ctx) {
+	p := c.P
+	q := findQB(p)
+	if q == nil || q.mq == nil || q.pq == nil || q.cond == nil {
+		c.Anchor("queuebatch queues")
+		return
+	}
+	lc := queueLockClass(p)
+	pk := p.ByPath[pkgQB]
+	funcs := p.AllSrcFuncs(pk)
+	sizeField := map[*types.Named]string{q.pq: "queueSize", q.mq: "size"}
+
+	c.Rule("R18", "PAIR", "freed space reaches every blocked producer that can use it: a release of queue space (a store that lowers the reported size, outside start-up) wakes ALL producers waiting for space (Broadcast on the space condition; each re-checks under the mutex) – waking one leaves a second small producer asleep next to free capacity, and a woken producer that still does not fit swallows the wake-up a smaller one behind it could have used", 3)
+	n := 0
+	for _, T := range []*types.Named{q.pq, q.mq} {
+		for _, fn := range funcs {
+			if recvNamedOfFn(rootFn(fn)) != T.Origin() || fn.Parent() != nil || lcStart(lc, fn) || isStartupFn(p, lc, fn) {
+				continue
+			}
+			one := instrSet(condCalls(fn, T, q.spaceField[T], "Signal"))
+			all := instrSet(condCalls(fn, T, q.spaceField[T], "Broadcast"))
+			for _, s := range fieldStores(fn, T, sizeField[T]) {
+				lowers := false
+				if bo, ok := s.Val.(*ssa.BinOp); ok && bo.Op == token.SUB {
+					lowers = true
+				}
+				if k, ok := constInt(s.Val); ok && k == 0 {
+					lowers = true
+				}
+				if _, isPhi := s.Val.(*ssa.Phi); isPhi {
+					lowers = true
+				}
+				if !lowers {
+					continue
+				}
+				n++
+				esc, _ := reachesReturnWithout(fn, s, all)
+				onlyOne := false
+				if esc {
+					if e2, _ := reachesReturnWithout(fn, s, one); !e2 {
+						onlyOne = true
+					}
+				}
+				if esc && !onlyOne {
+					// no wake-up at all on some path: that is C02.R2's report, not this rule's
+					c.OK(fmt.Sprintf("space released in %s wakes every waiting producer", fnName(fn)), p.Pos(s.Pos()), "no wake-up on some path (judged by R2)")
+					continue
+				}
+				c.Check(!esc, fmt.Sprintf("space released in %s wakes every waiting producer", fnName(fn)), p.Pos(s.Pos()), "Broadcast on the space condition on every path", "the release wakes one producer only (Signal): capacity 10, A(10) read; W1(1), W2(1) blocked; A done → W1 accepted, W2 stays blocked with 9 free units although every earlier request finished; with X(5), Y(5), W1(8), W2(2): X done wakes W1, which does not fit and waits again behind W2, Y done wakes W2 – nobody wakes W1 when 2+8 ≤ 10")
+			}
+		}
+	}
+	if n == 0 {
+		c.Undecided("space-releasing stores of the queues", "-", "not found")
+	}
+
+	c.Rule("R19", "GATE", "a request that can never fit is refused, not parked: every enqueue function that can wait for space tests the request's size against the capacity alone (size > capacity) before it waits, and returns an error on that side – with block_on_overflow a request larger than the capacity otherwise blocks on an EMPTY queue until its context ends and swallows the wake-ups of the producers behind it", 2)
+	n = 0
+	for _, T := range []*types.Named{q.pq, q.mq} {
+		for _, fn := range funcs {
+			if recvNamedOfFn(rootFn(fn)) != T.Origin() || fn.Parent() != nil {
+				continue
+			}
+			waits := condCalls(fn, T, q.spaceField[T], "Wait")
+			if len(waits) == 0 {
+				continue
+			}
+			n++
+			var waitIns []ssa.Instruction
+			for _, w := range waits {
+				waitIns = append(waitIns, w.(ssa.Instruction))
+			}
+			found := tooLargeRefusal(fn, T, sizeField[T], waitIns)
+			if !found {
+				// the test may live in the callers (Offer tests, then calls add): every static caller must have it before the call
+				callers := 0
+				all := true
+				for _, g := range funcs {
+					var sites []ssa.Instruction
+					for _, ci := range calls(g, func(ci ssa.CallInstruction) bool { return originFn(staticCalleeFn(ci)) == originFn(fn) }) {
+						sites = append(sites, ci.(ssa.Instruction))
+					}
+					if len(sites) == 0 {
+						continue
+					}
+					callers++
+					if !tooLargeRefusal(g, T, sizeField[T], sites) {
+						all = false
+					}
+				}
+				found = callers > 0 && all
+			}
+			c.Check(found, "enqueue function "+fnName(fn)+" refuses a request larger than the capacity before it waits", p.Pos(fn.Pos()), "size > capacity ⇒ error, evaluated before the wait", "no test of the request's size against the capacity alone: capacity 10, block_on_overflow, a request of size 11 offered to the EMPTY queue blocks until its context ends; two such producers take every wake-up and a producer of size 1 behind them starves on an empty queue")
+		}
+	}
+	if n == 0 {
+		c.Undecided("enqueue functions that wait for space", "-", "not found")
+	}
+
+	c.Rule("R20", "GATE", "a stopped persistent queue accepts nothing and holds nobody: its enqueue reads the stopped flag inside the capacity wait (loop condition or a test behind the wait) and refuses with an error, and Shutdown wakes the producers waiting for space – after Shutdown no consumer frees space any more, a blocked producer would wait until its context ends, and an accepted request would never be handed over in this run (sibling of R15 for the memory queue)", 2)
+	T := q.pq
+	n = 0
+	for _, fn := range funcs {
+		if recvNamedOfFn(rootFn(fn)) != T.Origin() || fn.Parent() != nil {
+			continue
+		}
+		if waits := condCalls(fn, T, q.spaceField[T], "Wait"); len(waits) > 0 {
+			n++
+			reads := false
+			for _, b := range fn.Blocks {
+				iff, ok := b.Instrs[len(b.Instrs)-1].(*ssa.If)
+				if !ok {
+					continue
+				}
+				onStopped := false
+				for x := range backSlice(iff.Cond) {
+					if fa, ok := x.(*ssa.FieldAddr); ok && isFieldAccess(fa, T, "stopped") {
+						onStopped = true
+					}
+				}
+				if !onStopped {
+					continue
+				}
+				// the test is re-evaluated after a wait (it lies on a path from the wait) or it is the loop test of the wait
+				for _, w := range waits {
+					if canReach(w.(ssa.Instruction), iff, nil) {
+						reads = true
+					}
+				}
+			}
+			c.Check(reads, "enqueue function "+fnName(fn)+" re-reads the stopped flag after waiting for space", p.Pos(fn.Pos()), "stopped tested behind the wait", "the stopped flag is never read on the way out of the capacity wait: producers blocked by block_on_overflow when Shutdown is called stay blocked until their own context ends, and an Offer after Shutdown is written to storage although nothing will hand it over")
+		}
+		// Shutdown: the function that stores stopped = true
+		for _, s := range fieldStores(fn, T, "stopped") {
+			if k, ok := constBool(s.Val); !ok || !k {
+				continue
+			}
+			n++
+			all := instrSet(condCalls(fn, T, q.spaceField[T], "Broadcast"))
+			esc, _ := reachesReturnWithout(fn, s, all)
+			c.Check(!esc, "stop of the persistent queue in "+fnName(fn)+" wakes the producers waiting for space", p.Pos(s.Pos()), "Broadcast on the space condition", "Shutdown wakes the consumers only: capacity 1, block_on_overflow, one stored request, a blocked producer – Shutdown returns and the producer stays blocked until its context ends")
+		}
+	}
+	if n < 2 {
+		c.Undecided("persistent queue enqueue wait / stop", "-", fmt.Sprintf("%d found", n))
+	}
+}
+
+// ---------- C20.R19 / R20 ----------
+func init() { addRules("C20", runC20Round6) }
+
+// provablyNonNilErr: v is a freshly built error, or every way v gets its value is one (phi edges taken from the
+// non-nil side of a nil test of the edge value count as well); at: the block where v is used.
+func provablyNonNilErr(v ssa.Value, at *ssa.BasicBlock, seen map[ssa.Value]bool) bool {
+	if seen[v] {
+		return true
+	}
+	seen[v] = true
+	switch x := v.(type) {
+	case *ssa.MakeInterface:
+		return true
+	case *ssa.Call:
+		if f := calleeOf(x); f != nil {
+			switch f.FullName() {
+			case "fmt.Errorf", "errors.New":
+				return true
+			}
+		}
+	case *ssa.Phi:
+		for i, e := range x.Edges {
+			pred := x.Block().Preds[i]
+			if provablyNonNilErr(e, pred, seen) {
+				continue
+			}
+			return false
+		}
+		return true
+	}
+	// guarded by v != nil (dominating guards of the using block, or the using block's own incoming edge test)
+	for _, g := range guardsOf(at) {
+		if guardIsNilTest(g, v, false) {
+			return true
+		}
+	}
+	if len(at.Instrs) > 0 {
+		if iff, ok := at.Instrs[len(at.Instrs)-1].(*ssa.If); ok {
+			// `if v == nil { v = fresh }`: the edge that skips the assignment leaves the If block on the non-nil side
+			if op, a, b, ok := cmpOf(Guard{Cond: iff.Cond, Branch: false, If: iff}); ok && op == token.NEQ && (sameValue(a, v) && isNilConst(b) || sameValue(b, v) && isNilConst(a)) {
+				return true
+			}
+		}
+	}
+	return false
+}
+
+func runC20Round6(c *Ctx) {
+	p := c.P
+	c.Rule("R19", "PROV", "a fatal report always reaches the collector as an error value: what the service host sends on the asynchronous error channel for a FatalError status event is never nil (an event built without an error gets a descriptive one) – the receivers tell `a fatal error was reported` from the value they receive, a nil received while the service starts is taken for `nothing happened` and the collector goes Running with a component in the terminal FatalError status", 1)
+	gpk := p.Pkg("service/internal/graph")
+	if gpk == nil {
+		c.Anchor("service/internal/graph")
+	} else {
+		n := 0
+		for _, fn := range p.AllSrcFuncs(gpk) {
+			allInstrs(fn, func(in ssa.Instruction) {
+				snd, ok := in.(*ssa.Send)
+				if !ok {
+					return
+				}
+				ch, ok := snd.Chan.Type().Underlying().(*types.Chan)
+				if !ok || !isErrorType(ch.Elem()) {
+					return
+				}
+				n++
+				c.Check(provablyNonNilErr(snd.X, snd.Block(), map[ssa.Value]bool{}), "value sent on the asynchronous error channel in "+fnName(fn)+" is not nil", p.Pos(snd.Pos()), "fresh error, or sent on the non-nil side", "the event's error is sent as it is: componentstatus.NewEvent(StatusFatalError) carries none, nil goes over the channel, and a component that reports it while the service starts (initial start or reload) is ignored – Run keeps running with the component in FatalError")
+			})
+		}
+		if n == 0 {
+			c.Undecided("send on the asynchronous error channel", "-", "not found in service/internal/graph")
+		}
+	}
+
+	c.Rule("R20", "PAIR", "a run whose first start fails also shuts the configuration providers down: every return of Run that lies behind the first set-up of the service (the call through which the configuration is resolved) and before the control loop passes a call that shuts the configuration provider down – the provider's watcher goroutine and the last Retrieved value are otherwise leaked, although the failed-reload path closes them", 1)
+	m := p.LookupMethod("otelcol", "Collector", "Run")
+	opk := p.Pkg("otelcol")
+	if m == nil || opk == nil {
+		c.Anchor("Collector.Run")
+		return
+	}
+	fn := p.SSAFunc(m)
+	isProvCall := func(name string) func(ci ssa.CallInstruction) bool {
+		return func(ci ssa.CallInstruction) bool {
+			f := calleeOf(ci)
+			return f != nil && f.Name() == name && strings.Contains(f.FullName(), "ConfigProvider")
+		}
+	}
+	// helpers that shut the provider down on every path / that resolve the configuration (Get), up to two calls deep
+	shuts := map[*ssa.Function]bool{}
+	gets := map[*ssa.Function]bool{}
+	for round := 0; round < 3; round++ {
+		for _, g := range p.AllSrcFuncs(opk) {
+			if g.Parent() != nil {
+				continue
+			}
+			ps := calls(g, func(ci ssa.CallInstruction) bool {
+				if isProvCall("Shutdown")(ci) {
+					return true
+				}
+				sf := staticCalleeFn(ci)
+				return sf != nil && shuts[sf]
+			})
+			if len(ps) > 0 {
+				via := map[ssa.Instruction]bool{}
+				for _, x := range ps {
+					via[x.(ssa.Instruction)] = true
+				}
+				if esc, _ := reachesReturnWithout(g, nil, via); !esc {
+					shuts[g] = true
+				}
+			}
+			if len(calls(g, func(ci ssa.CallInstruction) bool {
+				if isProvCall("Get")(ci) {
+					return true
+				}
+				sf := staticCalleeFn(ci)
+				return sf != nil && gets[sf]
+			})) > 0 {
+				gets[g] = true
+			}
+		}
+	}
+	via := map[ssa.Instruction]bool{}
+	for _, ci := range calls(fn, func(ci ssa.CallInstruction) bool {
+		if isProvCall("Shutdown")(ci) {
+			return true
+		}
+		sf := staticCalleeFn(ci)
+		return sf != nil && shuts[sf]
+	}) {
+		via[ci.(ssa.Instruction)] = true
+	}
+	var sel *ssa.Select
+	allInstrs(fn, func(in ssa.Instruction) {
+		if s, ok := in.(*ssa.Select); ok && s.Blocking {
+			sel = s
+		}
+	})
+	var setups []ssa.CallInstruction
+	for _, ci := range calls(fn, func(ci ssa.CallInstruction) bool {
+		sf := staticCalleeFn(ci)
+		return sf != nil && gets[sf]
+	}) {
+		if sel == nil || !canReach(sel, ci.(ssa.Instruction), nil) {
+			setups = append(setups, ci)
+		}
+	}
+	if len(setups) == 0 || sel == nil {
+		c.Undecided("first set-up of the service in Run", p.Pos(fn.Pos()), "not found")
+		return
+	}
+	n := 0
+	var bad *ssa.Return
+	for _, r := range returnsOf(fn) {
+		if canReach(sel, r, nil) {
+			continue // behind the loop: R18
+		}
+		for _, su := range setups {
+			if !canReach(su.(ssa.Instruction), r, nil) {
+				continue
+			}
+			n++
+			if canReach(su.(ssa.Instruction), r, via) {
+				bad = r
+			}
+		}
+	}
+	if n > 0 {
+		c.Check(bad == nil, "every return of Run between the first set-up and the control loop shuts the providers down", p.Pos(fn.Pos()), fmt.Sprintf("%d returns pass the provider shutdown", n), "the return at "+posOf(p, bad)+" is reached without it: a configuration whose component fails in Start (or an invalid configuration): Run returns the error, the provider's Shutdown was never called, its Retrieved value is not closed and its watcher goroutine is still running")
+	}
+	if n == 0 {
+		c.Undecided("returns of Run between the first set-up and the loop", "-", "none found")
+	}
+}
+
+// ---------- C10.R12 (known finding D70): the later Start calls of a shared component report its failed Start ----------
+func init() { addRules("C10", runC10SharedStartErr) }
+
+func runC10SharedStartErr(c *Ctx) {
+	p := c.P
+	c.Rule("R12", "PROV", "a failed Start of a shared component is reported to every node that starts it: the wrapped component is started once (sync.Once), so what the later Start calls return is the result of that only Start, kept in the wrapper – not a fresh nil – otherwise the second pipeline's node believes that a component whose Start failed is running", 1)
+	pk := p.Pkg("internal/sharedcomponent")
+	if pk == nil {
+		c.Anchor("internal/sharedcomponent")
+		return
+	}
+	n := 0
+	for _, fn := range p.AllSrcFuncs(pk) {
+		if fn.Parent() != nil || fn.Name() != "Start" || fn.Signature.Recv() == nil {
+			continue
+		}
+		// the method that starts the wrapped component inside a once: one of its closures is passed to (*sync.Once).Do
+		once := false
+		for _, cl := range fn.AnonFuncs {
+			if passedToOnce(cl) {
+				once = true
+			}
+		}
+		if !once {
+			continue
+		}
+		n++
+		var bad *ssa.Return
+		for _, r := range returnsOf(fn) {
+			rs := resultsOf(r)
+			if len(rs) != 1 {
+				continue
+			}
+			kept := false
+			for v := range backSlice(rs[0]) {
+				if fa, ok := v.(*ssa.FieldAddr); ok && len(fn.Params) > 0 && sameValue(strip(fa.X), fn.Params[0]) && isErrorType(derefStruct(fa.X.Type()).Field(fa.Field).Type()) {
+					kept = true
+				}
+			}
+			if !kept {
+				bad = r
+			}
+		}
+		c.Check(bad == nil, "every Start call of the shared component hands back the result of its only Start", p.Pos(fn.Pos()), "read from an error field of the wrapper", "a returned error is a local of the call (or a constant nil, "+posOf(p, bad)+"): a receiver shared by traces and metrics whose Start fails – the first node's Start returns the error, the second node's Start returns nil")
+	}
+	if n == 0 {
+		c.Undecided("Start of the shared component wrapper", "-", "not found")
+	}
+}
+
+// ---------- C05.R17: shutdown wins over an elapsed back-off timer ----------
+func init() { addRules("C05", runC05StopBeforeAttempt) }
+
+func runC05StopBeforeAttempt(c *Ctx) {
+	p := c.P
+	c.Rule("R17", "ORD", "no retry attempt is started once the exporter is shutting down: between the back-off wait and the next attempt the retry loop tests the stop channel again without blocking (select with default, or the wait is followed by such a test) – a select whose timer case and stop case are both ready picks one at random, so with a zero or elapsed back-off new attempts would otherwise start after Shutdown has returned", 1)
+	pk := p.Pkg("exporter/exporterhelper/internal")
+	if pk == nil {
+		c.Anchor("exporter/exporterhelper/internal")
+		return
+	}
+	n := 0
+	for _, fn := range p.AllSrcFuncs(pk) {
+		if fn.Parent() != nil || fn.Signature.Recv() == nil {
+			continue
+		}
+		// the retry loop: a blocking select with a case on the result of time.After (or a timer channel) and a case on a field channel
+		var wait *ssa.Select
+		var stopField string
+		allInstrs(fn, func(in ssa.Instruction) {
+			sel, ok := in.(*ssa.Select)
+			if !ok || !sel.Blocking {
+				return
+			}
+			timer, fieldCh := false, ""
+			for _, st := range sel.States {
+				for v := range backSlice(st.Chan) {
+					if cl, ok := v.(*ssa.Call); ok {
+						if f := calleeOf(cl); f != nil && f.FullName() == "time.After" {
+							timer = true
+						}
+					}
+				}
+				if u, ok := st.Chan.(*ssa.UnOp); ok {
+					if fa, ok := u.X.(*ssa.FieldAddr); ok && len(fn.Params) > 0 && sameValue(strip(fa.X), fn.Params[0]) {
+						fieldCh = derefStruct(fa.X.Type()).Field(fa.Field).Name()
+					}
+				}
+			}
+			if timer && fieldCh != "" {
+				wait, stopField = sel, fieldCh
+			}
+		})
+		if wait == nil {
+			continue
+		}
+		// the attempt: an interface call named Send inside the same loop
+		hdr, body := innermostLoop(wait.Block())
+		if hdr == nil {
+			continue
+		}
+		var attempts []ssa.Instruction
+		for _, ci := range calls(fn, func(ci ssa.CallInstruction) bool { return ci.Common().IsInvoke() && ci.Common().Method.Name() == "Send" }) {
+			if body[ci.Block()] || ci.Block() == hdr {
+				attempts = append(attempts, ci.(ssa.Instruction))
+			}
+		}
+		if len(attempts) == 0 {
+			continue
+		}
+		n++
+		via := map[ssa.Instruction]bool{}
+		allInstrs(fn, func(in ssa.Instruction) {
+			sel, ok := in.(*ssa.Select)
+			if !ok || sel.Blocking {
+				return
+			}
+			for _, st := range sel.States {
+				if u, ok := st.Chan.(*ssa.UnOp); ok {
+					if fa, ok := u.X.(*ssa.FieldAddr); ok && derefStruct(fa.X.Type()).Field(fa.Field).Name() == stopField {
+						via[sel] = true
+					}
+				}
+			}
+		})
+		ok := true
+		for _, a := range attempts {
+			if canReach(wait, a, via) {
+				ok = false
+			}
+		}
+		c.Check(ok, "retry loop of "+fnName(fn)+" re-tests the stop channel between the wait and the next attempt", p.Pos(wait.Pos()), "non-blocking test of "+stopField+" on every path from the wait to the attempt", "the only test of the stop channel is a case of the waiting select, next to the timer case: with retry_on_failure::initial_interval 0 (accepted by validation) the timer is always ready, select chooses at random, and attempts are started after Shutdown has returned (30 of 50 trials)")
+	}
+	if n == 0 {
+		c.Undecided("retry loop with a back-off wait", "-", "not found")
+	}
+}
+
+// ---------- C12.R30: a referenced null never enters the hook chain as an untyped nil ----------
+func init() { addRules("C12", runC12TypedNil) }
+
+func runC12TypedNil(c *Ctx) {
+	p := c.P
+	c.Rule("R30", "GATE", "a reference that resolves to null is decoded like a written null, whatever the target: where a decode hook of confmap hands on the zero value of its target type (`reflect.Zero(to).Interface()`), the target is not of interface kind on that path (tested, or the zero value is taken of a pointer type) – the zero value of an interface type is an untyped nil, the next hook receives an invalid reflect.Value and `field: ${env:UNSET}` decoded into an `any` field panics inside Conf.Unmarshal", 1)
+	pk := p.Pkg("confmap")
+	if pk == nil {
+		c.Anchor("confmap")
+		return
+	}
+	n := 0
+	for _, fn := range p.AllSrcFuncs(pk) {
+		if fn.Parent() == nil || fn.Signature.Results().Len() != 2 {
+			continue
+		}
+		for _, z := range callsNamed(fn, func(f *types.Func) bool { return f.FullName() == "reflect.Zero" }) {
+			zc, ok := z.(*ssa.Call)
+			if !ok {
+				continue
+			}
+			// does its Interface() reach a return of the hook?
+			returned := false
+			for _, r := range returnsOf(fn) {
+				for _, res := range resultsOf(r) {
+					for v := range backSlice(res) {
+						if v == ssa.Value(zc) {
+							returned = true
+						}
+					}
+				}
+			}
+			if !returned {
+				continue
+			}
+			n++
+			arg := zc.Call.Args[0]
+			safe := false
+			for v := range backSlice(arg) {
+				if cl, ok := v.(*ssa.Call); ok {
+					if f := calleeOf(cl); f != nil && (f.FullName() == "reflect.PointerTo" || f.FullName() == "reflect.PtrTo") {
+						safe = true
+					}
+				}
+			}
+			if !safe {
+				// on this path the kind of the target was compared with reflect.Interface and found different
+				for _, g := range guardsOf(zc.Block()) {
+					op, x, y, ok := cmpOf(g)
+					if !ok {
+						continue
+					}
+					isKind := func(v ssa.Value) bool {
+						cl, ok := v.(*ssa.Call)
+						if !ok {
+							return false
+						}
+						f := calleeOf(cl)
+						return f != nil && f.Name() == "Kind"
+					}
+					isIface := func(v ssa.Value) bool { k, ok := constInt(v); return ok && k == int64(reflect.Interface) }
+					if op == token.NEQ && (isKind(x) && isIface(y) || isKind(y) && isIface(x)) {
+						safe = true
+					}
+				}
+			}
+			c.Check(safe, "zero value handed on by decode hook "+fnName(fn)+" is typed", p.Pos(zc.Pos()), "target not of interface kind on this path", "the zero value of the target type is returned for a referenced null also when the target is an interface: `field: ${env:UNSET}` into `Field any` returns an untyped nil, the next hook calls from.Interface() on an invalid reflect.Value – panic out of Conf.Unmarshal (a written `field:` leaves the field nil)")
+		}
+	}
+	if n == 0 {
+		c.Undecided("zero values returned by confmap's decode hooks", "-", "none found")
+	}
+}
+
+// ---------- C04.R30: configured sizes are not narrowed without saturation ----------
+func init() { addRules("C04", runC04NoNarrowing) }
+
+func runC04NoNarrowing(c *Ctx) {
+	p := c.P
+	c.Rule("R30", "BOUND", "the configured batch limits mean the same on every platform: in the exporter's queue/batch package a 64-bit size is converted to the platform's int only where the value is known to fit (the conversion lies on the not-larger side of a comparison of that value with an upper bound, i.e. it saturates) – validation accepts any non-negative int64, and on a 32-bit target `max_size: 2147483648` otherwise wraps to a negative limit (the split loop appends empty requests until the process is out of memory) and 4294967296 to `no limit`", 1)
+	pk := p.Pkg("exporter/exporterhelper/internal/queuebatch")
+	if pk == nil {
+		c.Anchor("exporter/exporterhelper/internal/queuebatch")
+		return
+	}
+	n := 0
+	for _, fn := range p.AllSrcFuncs(pk) {
+		allInstrs(fn, func(in ssa.Instruction) {
+			cv, ok := in.(*ssa.Convert)
+			if !ok {
+				return
+			}
+			from, ok1 := cv.X.Type().Underlying().(*types.Basic)
+			to, ok2 := cv.Type().Underlying().(*types.Basic)
+			if !ok1 || !ok2 || from.Kind() != types.Int64 || to.Kind() != types.Int {
+				return
+			}
+			if _, isConst := cv.X.(*ssa.Const); isConst {
+				return
+			}
+			// a size: the result reaches a MergeSplit-like call (an int parameter of a request's interface method), a
+			// comparison with a size, or is stored into a field – everything but logging; judged for every such conversion
+			n++
+			safe := false
+			for _, g := range guardsOf(cv.Block()) {
+				op, x, y, ok := cmpOf(g)
+				if !ok {
+					continue
+				}
+				if (op == token.LEQ || op == token.LSS) && sameValue(x, cv.X) || (op == token.GEQ || op == token.GTR) && sameValue(y, cv.X) {
+					safe = true
+				}
+			}
+			c.Check(safe, "64-bit size narrowed to int in "+fnName(fn)+" only where it fits", p.Pos(cv.Pos()), "saturating conversion", "int(x) of a configured int64 size without a bound test: GOARCH=386, `max_size: 2147483648` (bytes sizer) becomes −2147483648, every extraction is empty and MergeSplit never terminates; `max_size: 4294967336` becomes a 40-byte limit")
+		})
+	}
+	if n == 0 {
+		c.OK("no 64-bit size is narrowed to int in the queue/batch package", "-", "no int(int64) conversion")
 	}
 }
